@@ -327,7 +327,9 @@ Upd(ev) ==
                     used |-> IF isSeg /\ HasStart(m.flags) THEN s.used \cup {m.id} ELSE s.used,
                     nAck |-> s.nAck + (IF m.t = "ACK" THEN 1 ELSE 0)]]
         /\ lastWireT' = [lastWireT EXCEPT ![e] = now]
-        /\ lastTrafT' = [lastTrafT EXCEPT ![e] = now]
+        \* (the KEEPALIVEs a terminating endpoint keeps sending do not postpone its closing: "hears nothing
+        \* further" is about what arrives)
+        /\ lastTrafT' = (IF m.t = "KA" /\ s.term THEN lastTrafT ELSE [lastTrafT EXCEPT ![e] = now])
         /\ termT' = (IF m.t = "TERM" THEN [termT EXCEPT ![e] = now] ELSE termT)
         /\ owed' = (IF m.t \in {"REJECT", "TERM"} /\ owed[e] > 0 THEN [owed EXCEPT ![e] = @ - 1] ELSE owed)
      ELSE /\ UNCHANGED <<wire, segs, ws, lastWireT, termT>>
